@@ -22,6 +22,7 @@ type FuncResult struct {
 	Err      string
 	Folded   int
 	Vacuity  *Obligation
+	Covers   []*Obligation
 	Assumes  []*Term
 	Models   []string
 	TypeIDs  map[int]types.Type
@@ -158,6 +159,7 @@ func (c *VerifCtx) verifyFunction(ct *Contract) (res *FuncResult) {
 	// vacuity: the assumptions at the end of the function must be satisfiable
 	res.Vacuity = &Obligation{Name: res.Name + "/vacuity", Func: res.Name, Kind: "vacuity", PC: True, Goal: False, NAssume: len(ex.assumes), Clause: "requires and assumed facts are satisfiable (expected sat)"}
 	res.Obls = ex.obls
+	res.Covers = ex.covers
 	res.Assumes = ex.assumes
 	res.Folded = c.folded
 	for k, n := range ex.notes {
